@@ -31,7 +31,7 @@ theorem deliver_cleans {u : Int} {s s' : State} {i : Identity} (h : step u s (.d
 theorem exit_interrupts_sleep {u : Int} {s s' : State} {i : Identity} (h : step u s (.exit i) = some s') :
     (∃ o, s'.ops i = some o ∧ o.alive = false ∧ o.sleeping = false) ∧ ∀ lag, step u s' (.wake i lag) = none := by
   obtain ⟨o, _, _, _, _, hops, _⟩ := exit_spec h
-  have h1 : s'.ops i = some { o with alive := false, sleeping := false, nextKA := none } := by rw [hops]; simp
+  have h1 : s'.ops i = some { o with alive := false, sleeping := false, nextKA := none, inflight := none } := by rw [hops]; simp
   refine ⟨⟨_, h1, rfl, rfl⟩, ?_⟩
   intro lag
   simp only [step, h1]
@@ -41,23 +41,19 @@ theorem expire_then_dead {u : Int} {s s' : State} {a : Identity} (h : step u s (
     (∃ d : Nat, step u s (.tick d) = some s') ∧ ∀ r, (a, r) ∈ s.status → r.dead u s'.now = true :=
   expire_spec h
 
-/-- What a call on an old view does, for every view: the verdict is about the VIEW (a peer of another identity, live at
-    the operator's own clock, priority ≥ own), and the clean removes from the CURRENT status every record — whatever it
-    says now — of each other identity that has a dead record in the view. -/
-theorem stale_verdict {u : Int} {s s' : State} {i : Identity} {view : Status}
-    (h : step u s (.deliverStale i view) = some s') :
+/-- What a call on an older view does, for every view (taken at a version that is not the current one): the verdict is
+    about the VIEW (a peer of another identity, live at the operator's own clock, priority ≥ own); the peering object
+    is not touched - the clean names the old version and is refused. -/
+theorem stale_verdict {u : Int} {s s' : State} {i : Identity} {view : Status} {vv : Nat}
+    (h : step u s (.deliverStale i view vv) = some s') (hv : vv ≠ s.ver) :
     ∃ o o', s.ops i = some o ∧ s'.ops i = some o' ∧ o'.prio = o.prio ∧
       (o'.paused = true ↔
         ∃ j r, (j, r) ∈ view ∧ j ≠ i ∧ s.now < r.lastseen + r.lifetime * u ∧ r.priority ≥ o.prio) ∧
-      ∀ j r, (j, r) ∈ s'.status ↔
-        ((j, r) ∈ s.status ∧ ¬ (j ≠ i ∧ ∃ r', (j, r') ∈ view ∧ r'.lastseen + r'.lifetime * u ≤ s.now)) := by
-  obtain ⟨o, ho, _, _, hst, _, _, hops⟩ := stale_spec h
+      s'.status = s.status ∧ s'.ver = s.ver := by
+  obtain ⟨o, ho, _, _, _, hst, hver, hops⟩ := stale_refused_spec h hv
   refine ⟨o, { o with paused := blockedB u view i o.prio s.now, sleeping := willTouchView u view i o s.now, seen := staleSeen u s i o.prio view },
-    ho, by rw [hops]; simp, rfl, ?_, ?_⟩
-  · simp only [blockedB_iff, dead_false_iff]
-  · intro j r
-    rw [hst, mem_eraseAll, mem_staleCleaned]
-    simp only [dead_true_iff]
+    ho, by rw [hops]; simp, rfl, ?_, hst, hver⟩
+  simp only [blockedB_iff, dead_false_iff]
 
 
 /-- A keep-alive of a running operator with `lifetime ≥ 1`, landing `lag` ticks after it was stamped, puts a record
@@ -66,7 +62,7 @@ theorem keepalive_writes {u : Int} {s s' : State} {i : Identity} {o : Op} {lag :
     (hL : 1 ≤ o.lifetime) (h : step u s (.keepalive i lag) = some s') :
     (i, { priority := o.prio, lifetime := o.lifetime, lastseen := s.now - lag }) ∈ s'.status ∧
       ∀ r, (i, r) ∈ s'.status → r = { priority := o.prio, lifetime := o.lifetime, lastseen := s.now - lag } := by
-  obtain ⟨o', ho', _, _, _, _, hst, _⟩ := keepalive_spec h
+  obtain ⟨o', ho', _, _, _, hst, _⟩ := keepalive_spec h
   rw [ho] at ho'; injection ho' with ho'; subst ho'
   rw [hst, touchVal_pos hu hL]
   refine ⟨mem_set.mpr (Or.inl ⟨rfl, rfl⟩), ?_⟩
